@@ -539,7 +539,7 @@ pub struct Sim {
     pub blocked_iterations: usize,
     /// what the last call of `iterate*` did: (an iteration of the real loop ran, it was started by a bare wake,
     /// indices of anchored actions whose yield point was not reached and that were applied afterwards)
-    pub last_iter: (bool, bool, Vec<usize>),
+    pub last_iter: (bool, bool, Vec<(usize, bool)>),
     st: Stepped,
     env: Rc<RefCell<Env>>,
     pub exited: bool,
@@ -970,9 +970,14 @@ impl Env {
             // marker for the strict trace: anchored action i was applied right after this yield point
             self.points.push(("fired".to_string(), i));
             let act = self.anchored[i].2.clone();
+            let skipped_before = self.skipped.len();
             // a panic of the ENGINE while applying an environment action must not be mistaken for a panic of the
             // accept thread: it is recorded and turned into a tool error by the driver
-            if let Err(p) = catch_unwind(AssertUnwindSafe(|| self.apply(&act))) {
+            let r = catch_unwind(AssertUnwindSafe(|| self.apply(&act)));
+            if self.skipped.len() > skipped_before {
+                self.points.push(("skipped".to_string(), i)); // the action was not applicable (strict trace: no-op)
+            }
+            if let Err(p) = r {
                 let msg = p
                     .downcast_ref::<&str>()
                     .map(|s| s.to_string())
@@ -1120,11 +1125,14 @@ impl Sim {
                 self.blocked_iterations += 1;
                 let mut e = self.env.borrow_mut();
                 let n = anchored.len();
-                for (_, _, a) in anchored.iter() {
+                let mut late = vec![];
+                for (k, (_, _, a)) in anchored.iter().enumerate() {
+                    let before = e.skipped.len();
                     e.apply(a);
+                    late.push((k, e.skipped.len() > before));
                 }
                 drop(e);
-                self.last_iter = (false, false, (0..n).collect());
+                self.last_iter = (false, false, late);
                 return n;
             }
             // timer_due: the poll timeout has elapsed in virtual time; the bare wake stands in for the time-out
@@ -1190,16 +1198,20 @@ impl Sim {
             let no_handle = self.st.snapshot(e.cfg.workers).handles.is_empty();
             e.dropped.push((cid, no_handle));
         }
-        self.last_iter.2 = e.anchored.iter().enumerate().filter(|(_, a)| !a.3).map(|(i, _)| i).collect();
-        let missed: Vec<Act> = e
+        let missed: Vec<(usize, Act)> = e
             .anchored
             .iter()
-            .filter(|a| !a.3)
-            .map(|a| a.2.clone())
+            .enumerate()
+            .filter(|(_, a)| !a.3)
+            .map(|(i, a)| (i, a.2.clone()))
             .collect();
-        for a in &missed {
+        let mut late = vec![];
+        for (i, a) in &missed {
+            let before = e.skipped.len();
             e.apply(a);
+            late.push((*i, e.skipped.len() > before));
         }
+        self.last_iter.2 = late;
         e.anchored.clear();
         drop(e);
         self.collect_faults();
